@@ -68,6 +68,14 @@ class C12(HistoryProperty):
         if type(root) is EvaluationError:
             res.violate("cause-chain-lost", op_index=i, node=op["node"], o=op["o"], error=out.brief(), chain=[type(x).__name__ for x in chain], faults=faults_desc)
             return False
+        # "leads through the nested objects": a re-wrapped error names the source of the error it wraps
+        for x in chain:
+            c = x.__cause__
+            if type(x) is EvaluationError and isinstance(c, EvaluationError) and x.msg.startswith("Error during evaluation of "):
+                if x.msg != f"Error during evaluation of {c.source}":
+                    res.violate("cause-chain-rewired", op_index=i, node=op["node"], o=op["o"], wrapper=x.msg[:160], cause_source=str(c.source)[:160],
+                                chain=[type(y).__name__ for y in chain], faults=faults_desc)
+                    return False
         knf = next((x for x in chain if isinstance(x, KeyNotFoundError)), None)
         if knf is not None and not isinstance(root, InjectedFault):
             key = knf.key
